@@ -18,7 +18,7 @@ PROFILES = {
     "stack": {"ranges", "soi", "stack", "recursion", "leak"},
     "full": {
         "ci", "ranges", "builtins", "unicode", "soi", "trivia", "atomic", "stack", "tags", "recursion",
-        "groups", "emptystr", "leak", "wildtrivia",
+        "groups", "emptystr", "leak", "wildtrivia", "zerorep",
     },
     "bait": {"ci", "ranges", "builtins", "unicode", "soi", "trivia", "atomic", "bait", "groups", "tags", "leak"},
 }
@@ -220,6 +220,10 @@ class Gen:
             return ("plus", e), False
         if c == "rep":
             e, _ = self.expr(depth - 1, True, later, guarded)
+            if "zerorep" in self.f and not need and r.random() < 0.12:
+                # zero-count repetitions: accepted by the library (pest itself rejects them), they match the empty
+                # string; only for the checks that need no reference semantics (C01 C02 C06 C07 C13 C16)
+                return r.choice([("exact", e, 0), ("max", e, 0), ("minmax", e, 0, 0)]), True
             kind = r.choice(["exact", "min", "max", "minmax"])
             if need and kind == "max":
                 kind = "exact"
